@@ -171,6 +171,8 @@ class Registry:
         self.spec_natives["is_instance"] = _is_instance
         if "XmlOut" not in self.opaques:
             self.opaques["XmlOut"] = OpaqueClass("XmlOut", {"attrs": {"tag": "str"}})
+        if "Match" not in self.opaques:
+            self.opaques["Match"] = OpaqueClass("Match", {"truthy": "true"})   # re match objects: only tested for truth
         self.spec_natives["implies"] = lambda it, a, k: VBool(z3.Implies(it.truthy(a[0]), it.truthy(a[1])))
         def _struct_resolver(qualname):
             ci = self.repo.lookup_class(qualname)
